@@ -141,7 +141,35 @@ func VerifHarness_C03_Accessible() {
 		pkg = verifOtherPkg
 	}
 	obj := types.NewVar(token.NoPos, pkg, name, types.Typ[types.Int])
+	// the output package: an arbitrary path (atom), or one that is textually close to the declaring package's path -
+	// its test package, a package with the same last element, a sub-package, its parent, the path in another case
 	out := nondetAtom("outputPackage")
+	if pkg != nil {
+		pp := pkg.Path()
+		last := pp
+		for i := len(pp) - 1; i >= 0; i-- {
+			if pp[i] == '/' {
+				last = pp[i+1:]
+				break
+			}
+		}
+		switch nondetChoice("outputPackage.shape", 8) {
+		case 1:
+			out = pp
+		case 2:
+			out = pp + "_test"
+		case 3:
+			out = "example.org/elsewhere/" + last
+		case 4:
+			out = pp + "/sub"
+		case 5:
+			out = pp[:len(pp)-len(last)-1]
+		case 6:
+			out = last
+		case 7:
+			out = pp + "/"
+		}
+	}
 	got := Accessible(obj, out)
 	want := verifOr(exported, pkg == nil)
 	if pkg != nil {
